@@ -30,7 +30,7 @@ DeferRoutes == {"thenjob", "catchjob", "thenable", "asyncsync", "asynccont", "as
 AllRoutes == SyncRoutes \cup DeferRoutes
 FewRoutes == {"call", "getter", "map", "iterforof", "evaldirect", "fbind", "genresume", "thenjob", "asynccont", "closethrow"}
 
-PlainForms == {"while", "dowhile", "for", "forlet", "forin", "forof", "lwhile", "ldo", "lfor", "lnest"}
+PlainForms == {"while", "dowhile", "for", "forlet", "forin", "forof", "lwhile", "ldo", "lfor", "lnest", "nest2"}
 FormsOf(route) == PlainForms \cup (IF route = "genspread" THEN {"wyield"} ELSE {})
                              \cup (IF route \in {"asyncsync", "asynccont"} THEN {"forawait"} ELSE {})
 LGrid == {0, 1, N - 1, N, N + 1}
@@ -47,6 +47,14 @@ FamLoop ==
             : r \in LoopHosts, cw \in CW, fm \in PlainForms \cup {"wyield", "forawait"}, lw \in LW, bw \in BW, L \in LG}
         \cup {Sc(<<RootLoop(fm, N, lw, bw)>>, L, -1, -1) : fm \in PlainForms, lw \in LW, bw \in BW, L \in LG}
 FamLoopOK == {s \in FamLoop : Len(s.acts) = 1 \/ s.acts[2].form \in FormsOf(s.acts[2].route)}
+
+(* --- runaway loops: many more iterations than the limit allows, in every kind of code --- *)
+Big == 40
+FamRunaway ==
+    {Sc(<<Root, Mk(r, 1, "p", "cf", fm, Big, "cf", "f", "ret")>>, L, -1, -1)
+        : r \in (IF Quick THEN {"call", "thenjob", "genspread"} ELSE LoopHosts), fm \in PlainForms \cup {"wyield", "forawait"}, L \in {3, 7}}
+    \cup {Sc(<<RootLoop(fm, Big, "cf", "f")>>, L, -1, -1) : fm \in PlainForms, L \in {3, 7}}
+FamRunawayOK == {s \in FamRunaway : Len(s.acts) = 1 \/ s.acts[2].form \in FormsOf(s.acts[2].route)}
 
 (* --- routes: every route x R grid x call-site wrapper x ordinary return / throw --- *)
 FamRoute ==
@@ -84,13 +92,13 @@ FamStack ==
         : r \in FewRoutes, fm \in {"none", "while"}, S \in (IF Quick THEN {0, 16, 32} ELSE {0, 8, 16, 24, 32, 48, 64})}
 
 Scenarios ==
-    CASE Family = "loop" -> FamLoopOK
+    CASE Family = "loop" -> FamLoopOK \cup FamRunawayOK
       [] Family = "route" -> FamRoute
       [] Family = "routeloop" -> FamRouteLoop
       [] Family = "chain3" -> FamChain3
       [] Family = "tree3" -> FamTree3
       [] Family = "stack" -> FamStack
-      [] Family = "all" -> FamLoopOK \cup FamRoute \cup FamRouteLoop \cup FamChain3 \cup FamTree3 \cup FamStack
+      [] Family = "all" -> FamLoopOK \cup FamRunawayOK \cup FamRoute \cup FamRouteLoop \cup FamChain3 \cup FamTree3 \cup FamStack
 
 WellFormed(s) ==
     /\ \A x \in 2..Len(s.acts) : s.acts[x].par \in 1..(x - 1) /\ (s.acts[x].site = "b" => s.acts[s.acts[x].par].form # "none")
